@@ -161,7 +161,31 @@ def run(ctx):
             else:
                 chk.violation("R06.3", "no-progress:%s" % w["path"], "a path around the token loop of %s does not advance %s: the parser can hang" % (w["path"], ivar), loc(w["span"]))
         if not found:
-            chk.unrecognised("R06.3", "walker:%s" % w["path"], "token loop `while idx < tokens.len()` not recognised", loc(w["span"]))
+            # iterator-driven form: `for (idx, token) in tokens.iter().enumerate()`: every trip around the loop passes the
+            # `next()` of an iterator over the token slice, and the loop is left when it is exhausted
+            loops = mir.natural_loops(w)
+            doms = mir.dominators(w)
+            for h, blks in sorted(loops.items()):
+                for bi, t in mir.calls(w, blks):
+                    f = t["func"]
+                    if f.get("k") != "fndef" or f.get("trait") != "std::iter::Iterator" or f.get("name") != "next" or not t["args"]:
+                        continue
+                    src = org.expand_named(org.op_term(t["args"][0]))
+                    if not re.search(r"core::slice::<impl \[T\]>::iter\(param:\w+\)", src):
+                        continue
+                    latches = [s for (s, hh) in mir.back_edges(w) if hh == h]
+                    every_trip = all(bi in doms.get(s, ()) for s in latches)
+                    sw = t["target"]
+                    leaves = sw is not None and any(e[0] == sw for e in mir.loop_exits(w, blks))
+                    found = True
+                    nw += 1
+                    if every_trip and leaves:
+                        chk.ok("R06.3", "%s: the token loop is driven by the slice iterator (%s)" % (w["path"].split("::", 2)[-1], src[:60]),
+                               "next() on every trip; exhausted => loop left", loc(t["span"]))
+                    else:
+                        chk.violation("R06.3", "no-progress:%s" % w["path"], "a path around the token loop of %s does not advance the token iterator: the parser can hang" % w["path"], loc(t["span"]))
+        if not found:
+            chk.unrecognised("R06.3", "walker:%s" % w["path"], "token loop (`while idx < tokens.len()` or `for .. in tokens.iter()`) not recognised", loc(w["span"]))
     chk.floor("R06.3", "token walkers", nw, 2)
 
     # ---- R06.5 value-proportional iteration in operator functions
